@@ -10,11 +10,13 @@ pub fn generate_mipmaps(
     loop {
         let width = current_image.width();
         let height = current_image.height();
-        if width <= 1 || height <= 1 || mipmaps.len() >= 16 {
+        // Keep halving until both dimensions reach 1, clamping the shorter one,
+        // to match `BlpHeader::mipmaps_count` and `BlpHeader::mipmap_size`.
+        if (width <= 1 && height <= 1) || mipmaps.len() >= 16 {
             break;
         }
-        let new_width = width >> 1;
-        let new_height = height >> 1;
+        let new_width = (width >> 1).max(1);
+        let new_height = (height >> 1).max(1);
         current_image = current_image.resize_exact(new_width, new_height, filter);
         mipmaps.push(current_image.clone());
     }
